@@ -273,7 +273,9 @@ def body(PROP, plan):
         retried = 0
         for attempt in (1, 2):
             bad = [k for k, (s0, e0) in enumerate(spans)
-                   if any(x["ev"] == "end" and not x["quiet"] and not x.get("loop") for x in evs[s0:e0])]
+                   if any((x["ev"] == "end" and not x["quiet"] and not x.get("loop")) or
+                          (x["ev"] == "panic" and x.get("who") == "rd" and "predicted notification" in x.get("msg", ""))   # the harness's own relay gave up
+                          for x in evs[s0:e0])]
             if not bad or len(bad) > max(50, len(behs) // 100):
                 break
             rf = run_shards(drv, [behs[k] for k in bad], sc, "retry%d" % attempt)
